@@ -480,6 +480,26 @@ func TestC13Ed25519Internal(t *testing.T) {
 					}
 					step("doubleMult", i, j, e, fmt.Sprintf("o%d.doubleMult(o%d, %s, %s)", i, j, m.Text(16), n.Text(16)))
 				},
+				"into:SetIdentity": func(t *rapid.T) {
+					i, _ := pick(t)
+					pool[i].SetIdentity()
+					step("into:SetIdentity", i, i, big.NewInt(0), fmt.Sprintf("o%d.SetIdentity()", i))
+				},
+				"into:assign-struct": func(t *rapid.T) {
+					i, j := pick(t)
+					pool[i] = pool[j]
+					step("into:assign-struct", i, j, exps[j], fmt.Sprintf("o%d = o%d", i, j))
+				},
+				"into:FromBytes(ToBytes)": func(t *rapid.T) {
+					i, j := pick(t)
+					enc := make([]byte, paramB)
+					cp := pool[j]
+					_ = cp.ToBytes(enc)
+					if !pool[i].FromBytes(enc) {
+						t.Fatalf("FromBytes rejects the encoding of a pool object")
+					}
+					step("into:FromBytes(ToBytes)", i, j, exps[j], fmt.Sprintf("o%d.FromBytes(o%d.ToBytes())", i, j))
+				},
 				"observe:ToBytes": func(t *rapid.T) {
 					if failed {
 						return
@@ -658,6 +678,56 @@ func TestC13Ed25519Internal(t *testing.T) {
 		}
 		if vlib.Shard == 0 {
 			vlib.Exhaustive(fmt.Sprintf("C13 ed25519-internal: scalars within ±%d of c·r (c=0…15; quick tier: c ∈ {0,1,2,15}) and of 2^256−1, fixedMult and doubleMult", span), int64(len(ks)), "all shards together")
+		}
+		// structured scalars: runs of one/zero bits (63…66, 127…130, …) at every bit offset, digit-pattern scalars
+		{
+			level, maxLen := 1, 130
+			if vlib.Thorough() {
+				level, maxLen = 2, 256
+			}
+			runs := curves.RunScalars(256, maxLen, level, vlib.Seed)
+			pats := curves.DigitPatternScalars(256)
+			ssub := sub + "/structured-scalars"
+			for i, k := range append(append([]*big.Int{}, runs...), pats...) {
+				if i%vlib.NShards != vlib.Shard {
+					continue
+				}
+				vlib.Eval(ssub)
+				var F pointR1
+				F.fixedMult(vlib.LE(k, paramB))
+				if got, want := c13Enc(&F), c13Want(k); got != want {
+					if !vlib.ReportDirect(t, "C13/ed25519-internal.fixedMult/structured-scalar", fmt.Sprintf("k=%s: got %s want %s", k.Text(16), got, want), map[string]interface{}{"k": k.Text(16)}) {
+						return
+					}
+				}
+			}
+			runsVar := curves.RunScalars(256, 256, level-1, vlib.Seed)
+			zero := make([]byte, paramB)
+			for i, k := range append(append([]*big.Int{}, runsVar...), pats...) {
+				if i%vlib.NShards != vlib.Shard {
+					continue
+				}
+				vlib.Eval(ssub)
+				kb := vlib.LE(k, paramB)
+				for c, mn := range [][2][]byte{{kb, zero}, {zero, kb}, {kb, kb}} {
+					var V pointR1
+					V.doubleMult(c13Mk(big.NewInt(1)), mn[0], mn[1])
+					e := new(big.Int).Set(k)
+					if c == 2 {
+						e.Lsh(e, 1)
+					}
+					if got, want := c13Enc(&V), c13Want(e); got != want {
+						if !vlib.ReportDirect(t, fmt.Sprintf("C13/ed25519-internal.doubleMult#%d/structured-scalar", c), fmt.Sprintf("k=%s: got %s want %s", k.Text(16), got, want), map[string]interface{}{"k": k.Text(16)}) {
+							return
+						}
+					}
+				}
+			}
+			vlib.NonTrivialH(ssub, "structured-batch", vlib.Hash64([]byte{byte(vlib.Shard), byte(vlib.Seed)}))
+			if vlib.Shard == 0 {
+				vlib.Exhaustive(fmt.Sprintf("C13 ed25519-internal: runs of one/zero bits (lengths 63…66, 127…130, … ≤ %d) at every bit offset of a 256-bit scalar, low parts 1, 3, 0", maxLen), int64(len(runs)),
+					fmt.Sprintf("fixedMult: level %d of ref/curves.RunScalars; doubleMult: %d scalars; %d digit-pattern scalars", level, len(runsVar), len(pats)))
+			}
 		}
 		inv2 := new(big.Int).ModInverse(big.NewInt(2), r)
 		var qs []*big.Int
